@@ -628,8 +628,9 @@ func (c *Cluster) Do(s Step) bool {
 		}
 		return did
 	case "Stabilized":
-		n := c.up(s.Node)
-		if n == nil {
+		// also for nodes that are down: the suffix stops removed members without logging it
+		n := c.Nodes[s.Node]
+		if n == nil || !n.Created {
 			return false
 		}
 		c.record(s)
